@@ -90,6 +90,16 @@ CHECKS["C19"] = dict(
         "same queries, dictionary round trip. Calibration with corrupted reload events.",
    technique="TLA+ abstract machine (Lens) + TLC MC; behaviour replay; trace validation of save/reload events (bit-exact dyadic comparison)",
    ref="6 (C19)")
+CHECKS["C13"] = dict(
+   text="spec/Session.tla models a session as a history of queries and edits over a library that is a function of (prescription, call); TLC checks "
+        "that no history violates repeatable / frame / args_unchanged and that results stay functional, and that three hazard variants (query reading "
+        "the stale per-surface record, query editing the lens, call mutating its arguments) do violate them (negative configs). Trace_Session validates "
+        "recorded sessions on sample and random lenses (vignetting factors, coatings, polarization): random interleavings of trace, trace_generic with "
+        "scalar and array arguments, paraxial and aberration queries, Wavefront/OPD, FFTPSF/FFTMTF/GeometricMTF and the analysis classes, with edits that "
+        "leave and return to a prescription; results, prescriptions and caller arrays are compared as SHA-256 tokens (bit identity); one ray traced "
+        "alone vs inside a batch is compared in dyadic arithmetic within the intersection tolerance. Calibration with corrupted sessions every run.",
+   technique="TLA+ session machine + TLC MC with negative hazard configs; code->spec trace validation of recorded sessions (token memo machine)",
+   ref="6 (C13)")
 NOT_YET = "check not built yet in this session (see DESIGN.md section 6 for the plan)"
 def main():
     props = [json.loads(l)["id"] for l in open(os.path.join(HERE, "properties.jsonl"))]
